@@ -11,7 +11,7 @@
    `raft_step`, no two members ever hold different entries at the same committed position.
    It is NOT proved in full here; what is proved is listed below (`_partial`).            *)
 From HV Require Import Proto.RaftNet Proto.PRaftLocal Proto.PRaftElection Proto.PRaftRefine Proto.PRaftLeader
-  Proto.PRaftWf Proto.PRaftExamples.
+  Proto.PRaftWf Proto.PRaftLog Proto.PRaftLogRefine Proto.PRaftSms Proto.PRaftExamples.
 
 Definition C40_raft_sms (n : N) : Prop := C40_raft_sms_stmt n.
 
@@ -57,9 +57,9 @@ Proof. exact ex_run. Qed.
 
 (* C40_raft_sms_partial: what is proved towards State Machine Safety (C40_raft_sms), for every
    execution of the network (any delay / reordering / duplication / loss, fail-stop crashes) over
-   the transcribed raft_step.  MISSING for the full property: Log Matching
-   (`log_matching_stmt`), Leader Completeness (`leader_completeness_stmt`) and the reduction
-   "SMS follows from Leader Completeness + Log Matching"; they are stated in Proto/RaftNet.v,
+   the transcribed raft_step.  MISSING for the full property: Leader Completeness (`LCstar`, Proto/PRaftSms.v).
+   Log Matching and the reduction SMS <= Leader Completeness are proved below
+   (C40_raft_log_matching, C40_raft_sms_from_leader_completeness). The safety predicates are also
    evaluated on every simulated cluster run of the real raft_step by the correspondence check
    (executable forms `log_matching_b`, `sms_pair_b`), but not proved.  Paxos is not covered. *)
 Theorem C40_raft_sms_partial : forall n g1 g2, reachable n g1 -> gsteps n g1 g2 ->
@@ -105,3 +105,20 @@ Theorem C40_raft_leader_commit_rule : forall others maj s,
             maj <= acks others (match_index s) (commit (do_commit others maj s)).
 Proof. exact leader_commit_rule. Qed.
 Print Assumptions C40_raft_leader_commit_rule.
+
+(* Log Matching: in every reachable state, if two logs hold entries of the same term at the same
+   position then the logs are identical up to and including that position *)
+Theorem C40_raft_log_matching : forall n g, reachable n g -> forall a b, a < n -> b < n ->
+  forall k e1 e2, nth_error (log (g_st g a)) k = Some e1 -> nth_error (log (g_st g b)) k = Some e2 ->
+  e_term e1 = e_term e2 -> firstn (S k) (log (g_st g a)) = firstn (S k) (log (g_st g b)).
+Proof. exact log_matching. Qed.
+Print Assumptions C40_raft_log_matching.
+
+(* The reduction: State Machine Safety follows from Leader Completeness.  Leader Completeness is
+   stated on the ghost-instrumented system (per-term leader logs `y_gl`), as `LCstar`: the leader
+   log of every elected term >= the term of a member's last committed entry contains that member's
+   committed prefix.  LCstar is NOT proved; everything else the reduction needs is. *)
+Theorem C40_raft_sms_from_leader_completeness : forall n,
+  (forall y, leffs n y_init y -> LCstar y) -> C40_raft_sms n.
+Proof. exact sms_from_lc. Qed.
+Print Assumptions C40_raft_sms_from_leader_completeness.
